@@ -2,8 +2,10 @@ package db
 
 import (
 	"context"
+	"database/sql"
 	"fmt"
 	"io"
+	"net/url"
 	"os"
 	"regexp"
 	"sync"
@@ -52,6 +54,12 @@ func (s *SwappableDB) Swap(path string, fkConstraints, walEnabled bool) error {
 	if !IsValidSQLiteFile(path) {
 		return fmt.Errorf("invalid SQLite data")
 	}
+	// The header check above only looks at the magic string. Swapping cannot be
+	// undone, so confirm SQLite itself can read the file before touching the
+	// live database.
+	if err := s.checkReadable(path); err != nil {
+		return fmt.Errorf("invalid SQLite data: %s", err)
+	}
 
 	s.dbMu.Lock()
 	defer s.dbMu.Unlock()
@@ -78,6 +86,44 @@ func (s *SwappableDB) Swap(path string, fkConstraints, walEnabled bool) error {
 		return fmt.Errorf("failed to recreate checkpoint manager: %s", err)
 	}
 	s.checkpointMgr = mgr
+	return nil
+}
+
+// checkReadable confirms that SQLite accepts the file at path as a database, by
+// reading its schema. The file is opened read-only and immutable, so it is not
+// modified, no locks are taken, and no side files (WAL, SHM) are created, no
+// matter which journal mode the file is in.
+func (s *SwappableDB) checkReadable(path string) error {
+	opts := url.Values{}
+	opts.Add("mode", "ro")
+	opts.Add("immutable", "1")
+	chkDB, err := sql.Open(s.drv.name, fmt.Sprintf("file:%s?%s", path, opts.Encode()))
+	if err != nil {
+		return err
+	}
+	defer chkDB.Close()
+	var n int
+	if err := chkDB.QueryRow("SELECT COUNT(*) FROM sqlite_master").Scan(&n); err != nil {
+		return err
+	}
+
+	// SQLite rounds a partial last page up when it sizes a file, so a file cut
+	// in the middle of a page still passes the check above. Every page the
+	// database claims to have must be completely present.
+	var pageCount, pageSize int64
+	if err := chkDB.QueryRow("PRAGMA page_count").Scan(&pageCount); err != nil {
+		return err
+	}
+	if err := chkDB.QueryRow("PRAGMA page_size").Scan(&pageSize); err != nil {
+		return err
+	}
+	fi, err := os.Stat(path)
+	if err != nil {
+		return err
+	}
+	if fi.Size() < pageCount*pageSize {
+		return fmt.Errorf("file is %d bytes, but database has %d pages of %d bytes", fi.Size(), pageCount, pageSize)
+	}
 	return nil
 }
 
